@@ -882,6 +882,30 @@ max = amax
 min = amin
 
 
+def _drop_nan(a):
+    flat = [v for v in asarray(a).reshape(-1) if not isinstance(v, _NaN)]
+    if not flat:
+        return None
+    out = _np.empty(len(flat), dtype=object)
+    for i, v in enumerate(flat):
+        out[i] = v
+    return out.view(SymArray)
+
+
+def nanmin(a, axis=None, **k):
+    if axis is not None:
+        raise NotEncodable('nanmin with axis')
+    b = _drop_nan(a)
+    return NaN if b is None else _npscalar(_cmp_reduce(b, None, False))
+
+
+def nanmax(a, axis=None, **k):
+    if axis is not None:
+        raise NotEncodable('nanmax with axis')
+    b = _drop_nan(a)
+    return NaN if b is None else _npscalar(_cmp_reduce(b, None, True))
+
+
 def _arg_reduce(a, axis, pick_gt):
     a = asarray(a)
     if axis is not None:
@@ -1194,6 +1218,16 @@ class _Random:
 
 
 random = _Random()
+
+
+def savetxt(fname, X, **k):
+    from . import symio
+    return symio.savetxt(fname, X, **k)
+
+
+def fromstring(string, dtype=float, count=-1, sep=''):
+    from . import symio
+    return symio.fromstring(string, dtype, count, sep)
 
 
 def frombuffer(buf, dtype=None, count=-1, offset=0):
